@@ -6,6 +6,7 @@ import (
 	"os"
 	"path/filepath"
 	"regexp"
+	"strconv"
 	"strings"
 	"testing"
 	"time"
@@ -17,7 +18,7 @@ import (
 )
 
 // C10 — the front end is total: any bytes as model files / manifest give exit 0, or exit 1
-// with at least one located error; never a panic, a hang or memory exhaustion.
+// with at least one located error whose line number is a line of the named file; never a panic, a hang or memory exhaustion.
 
 type C10Case struct {
 	Gen    string       `json:"gen"`
@@ -25,7 +26,7 @@ type C10Case struct {
 	Cmd    string       `json:"cmd"` // validate | generate
 }
 
-const c10Rule = "generators: bytes (raw / spliced into a valid file), tree (random YAML trees with yardl tags), mutate (valid generated package with 1-4 structural YAML mutations), strings (grammar-derived type and expression strings), manifest (random _package.yml); each case runs the real CLI (validate, 1 in 4 also generate) under a 10 s / 4 GiB limit. non-trivial = the input got past YAML syntax into yardl's own unmarshalling/validation (exit 0, or an error that is not a YAML scanner/parser error); distinct = hash of all file contents"
+const c10Rule = "generators: bytes (raw / spliced into a valid file), tree (random YAML trees with yardl tags), mutate (valid generated package with 1-4 structural YAML mutations), strings (grammar-derived type and expression strings), expr (well-formed expressions over a record with a field of every shape, incl. arrays mixing named and unnamed dimensions), refs (2-6 definitions whose type references and enum base types are drawn freely from a small pool of names: cycles, self references, wrong arities), manifest (random _package.yml); tree/mutate/strings/expr/refs texts are rendered in block style or entirely in flow style (one line, or with line breaks that put scalars into the first column); each case runs the real CLI (validate, 1 in 4 also generate) under a 10 s / 4 GiB limit. non-trivial = the input got past YAML syntax into yardl's own unmarshalling/validation (exit 0, or an error that is not a YAML scanner/parser error); distinct = hash of all file contents"
 
 var yamlSyntaxRe = regexp.MustCompile(`(did not find|could not find|found character|found unexpected|mapping values are not allowed|while scanning|while parsing|control characters are not allowed|invalid leading UTF-8|incomplete UTF-8|block sequence entries are not allowed|found unknown|expected a|unknown anchor|did not find expected|invalid trailing UTF-8|found undefined tag handle|found incompatible YAML|cannot unmarshal|yaml: )`)
 
@@ -111,6 +112,15 @@ func checkC10(c C10Case) *Fail {
 				}
 				if filepath.Base(f) == "_package.yml" || d.HasLine {
 					located = true
+				}
+				if d.HasLine {
+					// "a line number": a line of that file (one past the end is where an unexpected end of input is reported)
+					n, _ := strconv.Atoi(d.Line)
+					data, _ := os.ReadFile(f)
+					if lines := strings.Count(string(data), "\n") + 1; n < 1 || n > lines+1 {
+						res = failf("c10", "an error is located at line %d of %s, which has %d lines:\n%s", n, filepath.Base(f), lines, core.Trunc(out, 1500))
+						return
+					}
 				}
 			}
 			if !located {
@@ -329,9 +339,9 @@ func mutateTree(t *rapid.T, root *model.YNode) string {
 }
 
 var typeTokens = []string{"int", "string", "Foo", "Rec0", "T", "Main.Rec0", "float", "<", ">", ",", "*", "?", "[", "]", "(", ")", "->", ":", "3", "0", "x", "y", " ", "<int>", "[]", "[,]", "*2", "??", "99999999999999999999", "-1", "."}
-var exprTokens = []string{"a", "v", "fv", "arr", "narr", "farr", "m", "o", "u", "r", "s", "e", "1", "2", "0", "-1", "1.5", "0x10", "'x'", "\"y\"", "+", "-", "*", "/", "**", "(", ")", "[", "]", ",", ":", ".", " as ", "int", "float64", "string", "size", "dimensionIndex", "dimensionCount", "x", "y", "b", " ", "99999999999999999999", "[]", "()", "[0]", "[x:0]", "[0,0]", "[x:0,y:0]", ".b", "size(", "!", "?", "_"}
+var exprTokens = []string{"a", "v", "fv", "arr", "narr", "marr", "marr3", "[x:0, y:1]", "[z:0, t:1]", "farr", "m", "o", "u", "r", "s", "e", "1", "2", "0", "-1", "1.5", "0x10", "'x'", "\"y\"", "+", "-", "*", "/", "**", "(", ")", "[", "]", ",", ":", ".", " as ", "int", "float64", "string", "size", "dimensionIndex", "dimensionCount", "x", "y", "b", " ", "99999999999999999999", "[]", "()", "[0]", "[x:0]", "[0,0]", "[x:0,y:0]", ".b", "size(", "!", "?", "_"}
 
-var hostFields = []string{"a", "v", "fv", "arr", "narr", "unarr", "farr", "m", "o", "u", "nu", "r", "s", "e", "d", "u8", "i64", "zz", "r.b", "r.w",
+var hostFields = []string{"a", "v", "fv", "arr", "narr", "unarr", "marr", "marr3", "marr", "farr", "m", "o", "u", "nu", "r", "s", "e", "d", "u8", "i64", "zz", "r.b", "r.w",
 	// the computed fields of the same record (themselves included: reference cycles, forward references)
 	"c0", "c1", "c2", "sw", "c0", "sw"}
 
@@ -355,7 +365,7 @@ func genExpr(t *rapid.T, depth int) string {
 		for i := 0; i < n; i++ {
 			a := genExpr(t, depth-1)
 			if labelled == 1 || (labelled == 2 && rapid.Bool().Draw(t, "mixLabel")) {
-				a = rapid.SampledFrom([]string{"x", "y", "z", "a"}).Draw(t, "dimLabel") + ":" + a
+				a = rapid.SampledFrom([]string{"x", "y", "z", "a", "t", "x"}).Draw(t, "dimLabel") + ":" + a
 			}
 			args = append(args, a)
 		}
@@ -406,6 +416,12 @@ Host: !record
     arr: int[]
     narr: int[x, y]
     unarr: int[,]
+    marr: !array
+      items: int
+      dimensions: [~, x]
+    marr3: !array
+      items: float
+      dimensions: [t, ~, z]
     farr: float[x:2, y:3]
     m: string->int
     o: int?
@@ -421,7 +437,7 @@ Host: !record
 `
 
 func genC10(t *rapid.T) C10Case {
-	kinds := []string{"bytes", "tree", "mutate", "mutate", "mutate", "strings", "expr", "expr", "manifest"}
+	kinds := []string{"bytes", "tree", "mutate", "mutate", "mutate", "strings", "expr", "expr", "manifest", "refs", "refs"}
 	kind := rapid.SampledFrom(kinds).Draw(t, "gen")
 	c := C10Case{Gen: kind, Cmd: "validate"}
 	if rapid.IntRange(0, 3).Draw(t, "cmd") == 0 {
@@ -448,7 +464,7 @@ func genC10(t *rapid.T) C10Case {
 			name := rapid.SampledFrom([]string{"A", "B", "Foo", "Bar<T>", "P", "a", "X<T, U>", "Baz<>", "9x", ""}).Draw(t, "defName")
 			root.Put(name, genTree(t, 3))
 		}
-		c.Layout = model.Layout{"main": {"_package.yml": manifest, "m.yml": root.Render()}}
+		c.Layout = model.Layout{"main": {"_package.yml": manifest, "m.yml": renderStyled(t, root)}}
 	case "mutate":
 		cfg := model.DefaultGen()
 		cfg.MaxDefs = 5
@@ -465,7 +481,7 @@ func genC10(t *rapid.T) C10Case {
 		for i := 0; i < k; i++ {
 			mutateTree(t, nodes[fi])
 		}
-		l[target.DirName][model.DefaultFileNames(len(nodes))[fi]] = nodes[fi].Render()
+		l[target.DirName][model.DefaultFileNames(len(nodes))[fi]] = renderStyled(t, nodes[fi])
 		c.Layout = l
 		if target != p {
 			c.Gen = "mutate-import"
@@ -487,7 +503,7 @@ func genC10(t *rapid.T) C10Case {
 		for i := 0; i < m; i++ {
 			fmt.Fprintf(&b, "    f%d: %s\n", i, quoteYAML(genTokens(t, typeTokens, "ttok")))
 		}
-		c.Layout = model.Layout{"main": {"_package.yml": manifest, "m.yml": b.String()}}
+		c.Layout = model.Layout{"main": {"_package.yml": manifest, "m.yml": restyleBlockText(t, b.String())}}
 	case "expr":
 		var b strings.Builder
 		b.WriteString(exprHostHead)
@@ -513,7 +529,9 @@ func genC10(t *rapid.T) C10Case {
 				fmt.Fprintf(&b, "        %s: %s\n", quoteYAML(p), quoteYAML(body))
 			}
 		}
-		c.Layout = model.Layout{"main": {"_package.yml": manifest, "m.yml": b.String()}}
+		c.Layout = model.Layout{"main": {"_package.yml": manifest, "m.yml": restyleBlockText(t, b.String())}}
+	case "refs":
+		c.Layout = model.Layout{"main": {"_package.yml": manifest, "m.yml": restyleBlockText(t, genRefGraph(t))}}
 	case "manifest":
 		root := model.YMap()
 		keys := []string{"namespace", "imports", "versions", "cpp", "python", "matlab", "json", "bogus"}
@@ -549,6 +567,126 @@ func genC10(t *rapid.T) C10Case {
 		}
 	}
 	return c
+}
+
+// renderStyled prints a node tree in block style (mostly) or entirely in flow style, on one line or
+// with line breaks that put scalars into the first column.
+func renderStyled(t *rapid.T, n *model.YNode) string {
+	switch rapid.IntRange(0, 7).Draw(t, "style") {
+	case 0:
+		return n.RenderFlow(0)
+	case 1:
+		return n.RenderFlow(1)
+	case 2:
+		return n.RenderFlow(2)
+	}
+	return n.Render()
+}
+
+// restyleBlockText re-renders a (valid YAML) block-style text in one of the styles of renderStyled.
+func restyleBlockText(t *rapid.T, text string) string {
+	style := rapid.IntRange(0, 7).Draw(t, "style")
+	if style > 2 {
+		return text
+	}
+	n, err := model.ParseYAMLText(text)
+	if err != nil || n == nil {
+		return text
+	}
+	return n.RenderFlow(style)
+}
+
+var refPool = []string{"A", "B", "C", "D", "E", "F", "A", "B", "T", "U", "int", "string", "float", "bool", "size", "uint8", "date", "Main.A", "Main.C", "Nope"}
+
+// genRefType draws a type string whose named references are taken freely from a small pool of
+// definition names: self references, cycles, wrong arities and bases that are aliases arise by chance.
+func genRefType(t *rapid.T, depth int) string {
+	k := rapid.IntRange(0, 13).Draw(t, "refKind")
+	if depth <= 0 && k > 5 {
+		k = k % 6
+	}
+	switch k {
+	case 0, 1, 2, 3:
+		return rapid.SampledFrom(refPool).Draw(t, "refName")
+	case 4:
+		return "E<" + genRefType(t, depth-1) + ">"
+	case 5:
+		return "F<" + genRefType(t, depth-1) + ", " + genRefType(t, depth-1) + ">"
+	case 6:
+		return genRefType(t, depth-1) + "?"
+	case 7:
+		return genRefType(t, depth-1) + "*"
+	case 8:
+		return genRefType(t, depth-1) + rapid.SampledFrom([]string{"*2", "[]", "[,]", "[x, y]", "[2, 3]", "[x:2, y]", "[x:2, y:3]"}).Draw(t, "refDims")
+	case 9:
+		return genRefType(t, depth-1) + "->" + genRefType(t, depth-1)
+	default:
+		return rapid.SampledFrom(refPool).Draw(t, "refName2")
+	}
+}
+
+// refTypeNode: a type position, either a type string or a union written as a YAML sequence.
+func refTypeYAML(t *rapid.T, depth int) string {
+	if rapid.IntRange(0, 5).Draw(t, "refUnion") == 0 {
+		n := rapid.IntRange(1, 3).Draw(t, "refCases")
+		var cs []string
+		if rapid.Bool().Draw(t, "refNull") {
+			cs = append(cs, "null")
+		}
+		for i := 0; i < n; i++ {
+			cs = append(cs, quoteYAML(genRefType(t, depth)))
+		}
+		return "[" + strings.Join(cs, ", ") + "]"
+	}
+	return quoteYAML(genRefType(t, depth))
+}
+
+// genRefGraph: 2-6 definitions named from the pool (aliases, records, enums/flags with a base drawn from
+// the same pool, protocols), every type reference drawn freely from the pool.
+func genRefGraph(t *rapid.T) string {
+	var b strings.Builder
+	names := []string{"A", "B", "C", "D", "E<T>", "F<T, U>"}
+	n := rapid.IntRange(2, 6).Draw(t, "refDefs")
+	for i := 0; i < n; i++ {
+		name := names[i]
+		if rapid.IntRange(0, 11).Draw(t, "refDup") == 0 {
+			name = rapid.SampledFrom(names).Draw(t, "refDupName")
+		}
+		switch rapid.IntRange(0, 9).Draw(t, "refDefKind") {
+		case 0, 1, 2: // alias
+			fmt.Fprintf(&b, "%s: %s\n", quoteYAML(name), refTypeYAML(t, 2))
+		case 3, 4, 5: // record
+			fmt.Fprintf(&b, "%s: !record\n  fields:\n", quoteYAML(name))
+			m := rapid.IntRange(1, 3).Draw(t, "refFields")
+			for j := 0; j < m; j++ {
+				fmt.Fprintf(&b, "    f%d: %s\n", j, refTypeYAML(t, 2))
+			}
+			if rapid.IntRange(0, 2).Draw(t, "refCf") == 0 {
+				fmt.Fprintf(&b, "  computedFields:\n    c0: %s\n", quoteYAML(rapid.SampledFrom([]string{"f0", "f0 + 1", "f0[0]", "size(f0)", "f0.f0", "f1", "c0", "f0 as int", "f0[x:0, y:1]", "f0[y:0]"}).Draw(t, "refExpr")))
+			}
+		case 6, 7: // enum / flags
+			fmt.Fprintf(&b, "%s: %s\n", quoteYAML(name), rapid.SampledFrom([]string{"!enum", "!flags"}).Draw(t, "refEnumTag"))
+			if rapid.IntRange(0, 3).Draw(t, "refBase") > 0 {
+				fmt.Fprintf(&b, "  base: %s\n", quoteYAML(genRefType(t, 1)))
+			}
+			if rapid.Bool().Draw(t, "refValMap") {
+				fmt.Fprintf(&b, "  values:\n    a: %s\n    b: %s\n", rapid.SampledFrom([]string{"0", "1", "-1", "255", "256", "4294967296", "18446744073709551615", "18446744073709551616", "0x10"}).Draw(t, "refV1"), rapid.SampledFrom([]string{"1", "2", "0", "-129", "65536"}).Draw(t, "refV2"))
+			} else {
+				b.WriteString("  values: [a, b, c]\n")
+			}
+		default: // protocol
+			fmt.Fprintf(&b, "%s: !protocol\n  sequence:\n", quoteYAML(strings.SplitN(name, "<", 2)[0]+"P"))
+			m := rapid.IntRange(1, 3).Draw(t, "refSteps")
+			for j := 0; j < m; j++ {
+				if rapid.Bool().Draw(t, "refStream") {
+					fmt.Fprintf(&b, "    s%d: !stream\n      items: %s\n", j, refTypeYAML(t, 2))
+				} else {
+					fmt.Fprintf(&b, "    s%d: %s\n", j, refTypeYAML(t, 2))
+				}
+			}
+		}
+	}
+	return b.String()
 }
 
 func quoteYAML(s string) string {
